@@ -15,6 +15,9 @@ Scripts_c27_small == [Apps -> SeqsOf({"sub", "cancel", "recancel"}, 2)]
 \* one application goroutine, the call shapes that pile up signals
 Scripts_c27_block == [Apps -> SeqsOf({"sub", "cancel", "recancel"}, 4)]
 
+\* C27 with the monitor: calls racing one reconnect
+Scripts_c27_mon == [Apps -> {<<"sub">>, <<"sub", "cancel">>, <<"sub", "sub", "cancel">>, <<"sub", "cancel", "sub">>}]
+
 \* trace validation: the scripts come from the log
 Scripts_none == {[a \in Apps |-> <<>>]}
 
@@ -22,4 +25,5 @@ Scripts_none == {[a \in Apps |-> <<>>]}
 Scripts_c25 == [Apps -> {<<>>, <<"sub">>, <<"sub", "close">>, <<"close">>, <<"sub", "sub">>, <<"sub", "sub", "close">>}]
 Scripts_c25_small == [Apps -> {<<"sub">>, <<"sub", "close">>, <<"close">>}]
 Scripts_c25_live == [Apps -> {<<"sub">>}]
+Scripts_c25_outage == [Apps -> {<<"close">>, <<"sub">>, <<"sub", "close">>}]
 =============================================================================
